@@ -4619,8 +4619,11 @@ class ExpPiecewiseConvex(PiecewiseConvex):
                 piece = piece.to_affine()
             if isinstance(piece, (RandVar, RandVarSub)):
                 piece = piece.rand_to_roaffine(model.vt_model)
-            if isinstance(piece, (DecAffine, DecRoAffine)):
-                piece.ctype = 'E'
+            if isinstance(piece, DecAffine):
+                piece = DecAffine(piece.dro_model, piece, piece.event_adapt,
+                                  piece.fixed, 'E')
+            elif isinstance(piece, DecRoAffine):
+                piece = DecRoAffine(piece, piece.event_adapt, 'E')
 
             expect_pieces.append(piece)
 
